@@ -14,7 +14,7 @@ import (
 	"github.com/mithrandie/ternary"
 )
 
-var verifC04Queries [6]parser.SelectQuery
+var verifC04Queries [7]parser.SelectQuery
 
 func VerifC04BucketsSetup() {
 	verifC04Queries[0] = verifParseSelect("select k, count(*), min(id), max(id), listagg(id, ',') from t group by k")
@@ -23,6 +23,8 @@ func VerifC04BucketsSetup() {
 	verifC04Queries[3] = verifParseSelect("select k from t intersect select k from u")
 	verifC04Queries[4] = verifParseSelect("select k from t except select k from u")
 	verifC04Queries[5] = verifParseSelect("select id, count(*) over (partition by k), listagg(id, ',') over (partition by k) from t")
+	// the rows are reordered by one analytic function's ORDER BY before another one partitions by the same column
+	verifC04Queries[6] = verifParseSelect("select id, count(*) over (partition by k), row_number() over (order by k desc, id desc) from t")
 }
 
 var verifC04Menu = []string{"a", " A ", "b", "1", "x:y"}
@@ -96,7 +98,7 @@ func VerifC04Buckets() {
 			reps = append(reps, i)
 		}
 	}
-	qi := verifChoice("query", 6)
+	qi := verifChoice("query", 7)
 	view, err := Select(verifCtx(), scope, verifC04Queries[qi])
 	verifAssert("select succeeds", err == nil)
 	switch qi {
@@ -162,6 +164,18 @@ func VerifC04Buckets() {
 		verifAssert("set operator: number of rows", view.RecordLen() == len(want))
 		for g := 0; g < view.RecordLen() && g < len(want); g++ {
 			verifAssert("set operator: rows and order", same(view.RecordSet[g][0][0], want[g]))
+		}
+	case 6:
+		verifAssert("partition after reordering: all rows kept", view.RecordLen() == n)
+		for r := 0; r < view.RecordLen(); r++ {
+			id := int(verifIntCell(view.RecordSet[r][0][0]))
+			cnt := 0
+			for i := 0; i < n; i++ {
+				if class[i] == class[id] {
+					cnt++
+				}
+			}
+			verifAssert("count(*) over the partition after another function reordered the rows", verifIntCell(view.RecordSet[r][1][0]) == int64(cnt))
 		}
 	default:
 		verifAssert("partition: all rows kept", view.RecordLen() == n)
